@@ -412,21 +412,220 @@ func checkParseXor(c *core.Ctx, l *core.Ledger) {
 	} else {
 		l.Unk("XOR", "idl.newParseError", "", "not found")
 	}
-	if cf := c.SSAFunc(c.LookupFunc("idl", "Config.Parse")); cf != nil {
-		ok := false
-		core.Instrs(cf, func(in ssa.Instruction) {
-			if r, isR := in.(*ssa.Return); isR && len(r.Results) == 2 {
-				a, b := core.Sym(r.Results[0]), core.Sym(r.Results[1])
-				if strings.Contains(a, "Parse($1)#0.Program") && strings.HasPrefix(b, "idl.newParseError(") && strings.Contains(b, "Parse($1)#1") {
-					ok = true
+	for _, name := range []string{"Config.Parse", "Parse"} {
+		cf := c.SSAFunc(c.LookupFunc("idl", name))
+		if cf == nil {
+			l.Unk("XOR", "idl."+name, "", "not found")
+			continue
+		}
+		why := forwardsErrorList(c, cf)
+		l.Check(why == "", "XOR", "idl."+name, c.Rel(cf.Pos()), "on every path, in both worlds (error list empty / non-empty): returns the internal result's program, and a nil error exactly when the list is empty", why)
+	}
+	l.Floor("XOR", 7)
+}
+
+// forwardsErrorList: f calls internal.Parse once and, on every path, returns
+// that result's Program and an error that is nil exactly when the returned
+// error list is empty. Paths are enumerated in two worlds (list empty,
+// list non-empty); conditions on len(list) and on the nil-ness of
+// newParseError(list) (whose nil-iff-empty contract is its own obligation)
+// are decided by the world, phis by the path.
+func forwardsErrorList(c *core.Ctx, f *ssa.Function) string {
+	ip := c.SSAFunc(c.LookupFunc("idl/internal", "Parse"))
+	np := c.SSAFunc(c.LookupFunc("idl", "newParseError"))
+	if ip == nil || np == nil {
+		return "internal.Parse or newParseError not found"
+	}
+	var res, list ssa.Value
+	calls := 0
+	core.Instrs(f, func(in ssa.Instruction) {
+		call, ok := in.(*ssa.Call)
+		if !ok || call.Call.StaticCallee() != ip {
+			return
+		}
+		calls++
+		for _, r := range *call.Referrers() {
+			if ex, ok := r.(*ssa.Extract); ok {
+				if ex.Index == 0 {
+					res = ex
+				} else {
+					list = ex
 				}
 			}
-		})
-		l.Check(ok, "XOR", "idl.Config.Parse", c.Rel(cf.Pos()), "returns the internal result's program and the converted error list unchanged", "Config.Parse does not forward (result.Program, newParseError(errors))")
-	} else {
-		l.Unk("XOR", "idl.Config.Parse", "", "not found")
+		}
+	})
+	if calls != 1 || list == nil || res == nil {
+		return "does not call internal.Parse exactly once and use both results"
 	}
-	l.Floor("XOR", 6)
+	isProgram := func(v ssa.Value) bool {
+		sym := core.Sym(v)
+		return strings.Contains(sym, "Parse(") && strings.HasSuffix(sym, "#0.Program")
+	}
+	const (
+		isNil = iota + 1
+		nonNil
+		unk
+	)
+	type frame struct {
+		b, prev *ssa.BasicBlock
+	}
+	var why string
+	for _, nonEmpty := range []bool{false, true} {
+		var nilness func(v ssa.Value, phis map[*ssa.Phi]ssa.Value, d int) int
+		nilness = func(v ssa.Value, phis map[*ssa.Phi]ssa.Value, d int) int {
+			if d > 8 {
+				return unk
+			}
+			switch x := v.(type) {
+			case *ssa.Const:
+				if x.IsNil() {
+					return isNil
+				}
+			case *ssa.Phi:
+				if e, ok := phis[x]; ok {
+					return nilness(e, phis, d+1)
+				}
+			case *ssa.Call:
+				if x.Call.StaticCallee() == np && len(x.Call.Args) == 1 && x.Call.Args[0] == list {
+					if nonEmpty {
+						return nonNil
+					}
+					return isNil
+				}
+			case *ssa.MakeInterface, *ssa.ChangeInterface:
+				if core.DefinitelyNonNilError(v, 2) {
+					return nonNil
+				}
+			}
+			return unk
+		}
+		// cond: 1 true, 0 false, -1 unknown
+		cond := func(v ssa.Value, phis map[*ssa.Phi]ssa.Value) int {
+			bo, ok := v.(*ssa.BinOp)
+			if !ok {
+				return -1
+			}
+			b2i := func(b bool) int {
+				if b {
+					return 1
+				}
+				return 0
+			}
+			if k, isK := bo.Y.(*ssa.Const); isK && k.IsNil() && (bo.Op == token.EQL || bo.Op == token.NEQ) {
+				switch nilness(bo.X, phis, 0) {
+				case isNil:
+					return b2i(bo.Op == token.EQL)
+				case nonNil:
+					return b2i(bo.Op == token.NEQ)
+				}
+				return -1
+			}
+			if call, isC := bo.X.(*ssa.Call); isC {
+				if bi, isB := call.Call.Value.(*ssa.Builtin); isB && bi.Name() == "len" && call.Call.Args[0] == list {
+					if k, isK := core.ConstInt(bo.Y); isK {
+						n := int64(0) // representative lengths: 0 in the empty world; 1 and "many" agree on every comparison with 0 or 1 below
+						if nonEmpty {
+							n = 1
+						}
+						switch {
+						case k == 0 && bo.Op == token.GTR, k == 0 && bo.Op == token.NEQ, k == 1 && bo.Op == token.GEQ:
+							return b2i(n > 0)
+						case k == 0 && bo.Op == token.EQL, k == 0 && bo.Op == token.LEQ, k == 1 && bo.Op == token.LSS:
+							return b2i(n == 0)
+						}
+					}
+				}
+			}
+			return -1
+		}
+		var walk func(b, prev *ssa.BasicBlock, phis map[*ssa.Phi]ssa.Value, depth int)
+		walk = func(b, prev *ssa.BasicBlock, phis map[*ssa.Phi]ssa.Value, depth int) {
+			if why != "" {
+				return
+			}
+			if depth > 4*len(f.Blocks)+8 {
+				why = "path enumeration did not finish (loop in the function)"
+				return
+			}
+			if prev != nil {
+				np2 := map[*ssa.Phi]ssa.Value{}
+				for k, v := range phis {
+					np2[k] = v
+				}
+				for _, in := range b.Instrs {
+					ph, ok := in.(*ssa.Phi)
+					if !ok {
+						break
+					}
+					for i, p := range b.Preds {
+						if p == prev {
+							e := ph.Edges[i]
+							if ep, isP := e.(*ssa.Phi); isP {
+								if r, ok := phis[ep]; ok {
+									e = r
+								}
+							}
+							np2[ph] = e
+						}
+					}
+				}
+				phis = np2
+			}
+			switch t := b.Instrs[len(b.Instrs)-1].(type) {
+			case *ssa.Return:
+				world := "empty"
+				if nonEmpty {
+					world = "non-empty"
+				}
+				if len(t.Results) != 2 {
+					why = "unexpected result count"
+					return
+				}
+				r0 := t.Results[0]
+				if ph, isP := r0.(*ssa.Phi); isP {
+					if e, ok := phis[ph]; ok {
+						r0 = e
+					}
+				}
+				if !isProgram(r0) {
+					why = fmt.Sprintf("with the error list %s, a path returns %s instead of the internal result's Program (%s)", world, core.Sym(r0), c.Rel(t.Pos()))
+					return
+				}
+				switch nilness(t.Results[1], phis, 0) {
+				case isNil:
+					if nonEmpty {
+						why = "a path returns a nil error although the parser reported errors (" + c.Rel(t.Pos()) + ")"
+					}
+				case nonNil:
+					if !nonEmpty {
+						why = "a path returns a non-nil error although the error list is empty (" + c.Rel(t.Pos()) + ")"
+					}
+				default:
+					why = "the returned error " + core.Sym(t.Results[1]) + " is not nil / newParseError(list) (" + c.Rel(t.Pos()) + ")"
+				}
+			case *ssa.If:
+				switch cond(t.Cond, phis) {
+				case 1:
+					walk(b.Succs[0], b, phis, depth+1)
+				case 0:
+					walk(b.Succs[1], b, phis, depth+1)
+				default:
+					walk(b.Succs[0], b, phis, depth+1)
+					walk(b.Succs[1], b, phis, depth+1)
+				}
+			case *ssa.Jump:
+				walk(b.Succs[0], b, phis, depth+1)
+			case *ssa.Panic:
+			default:
+				why = "unexpected terminator"
+			}
+		}
+		walk(f.Blocks[0], nil, map[*ssa.Phi]ssa.Value{}, 0)
+		if why != "" {
+			return why
+		}
+	}
+	return ""
 }
 
 // yaccFailureImpliesError explores the parser driver's CFG with the abstract
